@@ -169,6 +169,15 @@ CLAIMED["C19"] = (
     "and wire sequence compared (spec->code)",
     "Exhaustive model checking of the queue discipline for every script queue in the bounds, plain and secure, plus conformance of "
     "the real client on every one of them.", "3 C19", "")
+CLAIMED["C14"] = (
+    "TLA+ spec specs/http/ReqChannel.tla (the client -> wire -> server request channel specified as the identity on method, path, "
+    "query arguments, header value and body; input space of 13 character classes per field with up to two fields away from the "
+    "default, methods and body kinds; don't-care cases marked): TLC enumerates the space and checks Identity; every request "
+    "concretised, built by the real Requester, parsed by the real Requestant and Server.buildEnviron and compared with what went "
+    "in, query strings decoded by urllib.parse.parse_qsl (spec->code, model-generated inputs)",
+    "Model-generated systematic input space (all pairs of fields x all pairs of character classes) with the identity oracle, every "
+    "case executed through the real encoder and decoder. The encoding itself is not modelled (encode/decode fidelity is at the edge "
+    "of what a TLA+ model decides; said so in DESIGN.md).", "3 C14", "")
 NA = {
  "C28": "pure value-fidelity of json/cbor2/msgpack + dataclass reflection: no state/transition structure for a TLA+ model to decide (DESIGN.md section 4)",
 }
